@@ -18,7 +18,8 @@ PR(o) == [pr |-> ToSet(o.pr), root |-> [ids |-> ToSet(o.rootIds), thr |-> o.root
           tgt |-> [on |-> o.tgtOn, ids |-> ToSet(o.tgtIds), thr |-> o.tgtThr],
           globals |-> [i \in DOMAIN o.globals |-> [name |-> o.globals[i].name, kind |-> o.globals[i].kind,
                                                   thr |-> IF o.globals[i].kind = "threshold" THEN o.globals[i].thr ELSE 0]],
-          hooks |-> [pre |-> o.pre, push |-> o.push], multi |-> [ctl |-> o.ctl, cr |-> o.cr, nr |-> o.nr]]
+          hooks |-> [pre |-> o.pre, push |-> o.push], multi |-> [ctl |-> o.ctl, cr |-> o.cr, nr |-> o.nr],
+          pd |-> [i \in DOMAIN o.pd |-> [name |-> o.pd[i].name, spec |-> o.pd[i].spec]]]
 NormG(r) == [r EXCEPT !.globals = [i \in DOMAIN r.globals |-> [r.globals[i] EXCEPT !.thr = IF r.globals[i].kind = "threshold" THEN @ ELSE 0]]]
 
 \* edits as the model's records
@@ -31,7 +32,8 @@ ER(e) == CASE e.op \in {"AddGlobalRule", "UpdateGlobalRule"} -> [op |-> e.op, na
            [] e.op \in {"AddHook", "RemoveHook"} -> [op |-> e.op, stages |-> e.stages, name |-> e.name]
            [] e.op \in {"UpdateRootThreshold", "UpdatePrimaryRuleFileThreshold"} -> [op |-> e.op, thr |-> e.thr]
            [] e.op \in {"EnableController", "DisableController"} -> [op |-> e.op]
-           [] e.op \in {"AddControllerRepository", "AddNetworkRepository"} -> [op |-> e.op, name |-> e.name]
+           [] e.op \in {"AddControllerRepository", "AddNetworkRepository", "DeletePropagationDirective"} -> [op |-> e.op, name |-> e.name]
+           [] e.op \in {"AddPropagationDirective", "UpdatePropagationDirective"} -> [op |-> e.op, name |-> e.name, spec |-> e.spec]
            [] OTHER -> [op |-> e.op, p |-> e.p]
 
 NoErr(st) == "err" \notin DOMAIN st.file /\ "err" \notin DOMAIN st.fileRT /\ "err" \notin DOMAIN st.fileMG
